@@ -71,6 +71,12 @@ func (m *Machine) markerInvoke(recv *IfaceV, method *types.Func, args []Value, s
 				return m.newError(smt.StrC("context canceled"), nil)
 			}
 			if ctx.HasDL {
+				if m.deadlineControlled() {
+					if m.deadlineExpired() {
+						return m.newError(smt.StrC("context deadline exceeded"), nil)
+					}
+					return &IfaceV{}
+				}
 				if m.chooseAt(2, site) == 1 {
 					return m.newError(smt.StrC("context deadline exceeded"), nil)
 				}
@@ -601,6 +607,15 @@ func init() {
 		cond := smt.Implies(smt.And(hyp...), smt.And(same...))
 		m.asserts = append(m.asserts, &AssertRec{Label: label, Cond: cond, PC: append([]*smt.Term(nil), m.pc...), Draws: append([]string(nil), m.draws...)})
 		m.htrace = append(m.htrace, "assert "+label)
+		return nil
+	}
+	I["zzverif.DeadlineControl"] = func(m *Machine, fn *ssa.Function, args []Value) Value {
+		m.ghost["deadline.controlled"] = true
+		return nil
+	}
+	I["zzverif.ExpireDeadlines"] = func(m *Machine, fn *ssa.Function, args []Value) Value {
+		m.ghost["deadline.expired"] = true
+		m.effect("deadlines_expire")
 		return nil
 	}
 	I["zzverif.Thorough"] = func(m *Machine, fn *ssa.Function, args []Value) Value { return smt.BoolC(m.Thorough) }
